@@ -65,6 +65,11 @@ CHECKS.update({
          'Trees (ordinary and exotic, normalised to level 0), block-shaped roots with a Merkle update over pruned/full/partly pruned states, and hand-encoded ShardStateUnsplit cells with account dictionaries are pruned by the reference model (create_pruned_branch at the right Merkle depth) into proofs that must be accepted by check_proof / check_block_header_proof / check_account_proof; every mutant whose committed level-0 hash, stored root hash or cell kind differs (bit flips, reference drop/swap/duplicate/retarget, substituted pruned hashes and depths, level-lifted pruned branches with attacker-chosen lower hashes, wrong expected hash, forged state below a lifted Merkle-update child, claimed account state that is a pruned branch / another account / one bit off, other address, wrong root count) must raise, and a mutant that keeps the block hash must not change the extracted state hash.',
          'Trusts harness/ref/refcell.py (validated in C01/C02), refdict/refbits writers, sha256 collision freedom. Rejection of a changed depth field of the proof root and of internally inconsistent exotic cells whose committed hash is intact is not asserted.', '§6 C11'),
 })
+CHECKS.update({
+ 'C15': ('enumerated grids (header kind x extra currencies x state-init shapes x placement x body size at inline capacity -1/0/+1 in bits and refs; near-full headers 1003..1023 bits) + Hypothesis messages and wrapper values; three-way oracle: never-fails, independent TL-B decoder (reftlb), library parser on every valid placement',
+         'Messages are generated as plain TL-B values by the declarative reference interpreter; (A) MessageAny.serialize must succeed whenever at least one of the four init/body placements fits a cell, (B) the produced cell must decode under the independent schema reading to the same logical message, (C) MessageAny.deserialize must return the same message from the library-produced cell and from every other valid placement encoded by the reference. Same scheme for StateInit, CurrencyCollection, ExtraCurrencyCollection, wallet v3/v4/highload data, NFT item data and HashUpdate. Self-consistent writer/reader errors are caught by the independent decoder.',
+         'Trusts harness/ref/reftlb.py + tlb_msg.py (self-checked on hand-assembled bit strings), refdict/refcell. addr_var, relaxed headers and exotic body/init cells are outside the domain (no library API).', '§6 C15'),
+})
 NOT_YET = {}
 
 def main():
